@@ -397,3 +397,55 @@ func VerifC12Race(h *verifh.H) {
 	h.Assert(vDedupOf(want.feed, after.feed), "full feed = uncompacted feed minus only versions identical to their predecessor :: got="+server.VJoin(after.feed)+" uncompacted="+server.VJoin(want.feed))
 	h.Observe("feed", len(after.feed))
 }
+
+// VerifC12TwoDatasets: compaction is requested for two datasets of one hub
+// through the real entry point (CompactionWorker.CompactAsync, what two
+// POST /compact requests do) while a client writes a new version to the first
+// dataset — whose latest version is a legacy duplicate, so its compaction has a
+// latest pointer to rewrite. Whether the second request is refused or served,
+// and however the three interleave (symbolic schedule over locks, transaction
+// starts and commits), the first dataset ends up exactly as the same history
+// plus the write without any compaction: the write is not lost to a repoint.
+func VerifC12TwoDatasets(h *verifh.H) {
+	build := func(hub *server.VHub) {
+		ba := server.NewBadgerAccess(hub.Store, hub.Dsm)
+		for _, n := range []string{"d", "other"} {
+			ds, err := hub.Dsm.CreateDataset(n, nil)
+			h.Assert(err == nil, "create")
+			h.Assert(ds.StoreEntities([]*server.Entity{vMk("ns0:e1", vShape{val: "x"})}) == nil, "write")
+			vLegacyDuplicate(h, hub, ba, n, "ns0:e1")
+		}
+	}
+	w := vShape{val: "y"}
+	env2 := server.VerifConfig(h, time.Hour)
+	env2.StoreLocation = h.TempDir() + "/store-ref"
+	ref := server.VerifOpenHub(env2)
+	build(ref)
+	h.Assert(ref.Dsm.GetDataset("d").StoreEntities([]*server.Entity{vMk("ns0:e1", w)}) == nil, "reference write")
+	want := vObserve(h, ref, nil)
+
+	hub := server.VerifNewHub(h)
+	build(hub)
+	ds := hub.Dsm.GetDataset("d")
+	mkStrategy := func() *deduplicationStrategy {
+		return &deduplicationStrategy{counts: make(map[string]int), changeBuffer: make(map[[24]byte]byte), flushAfter: 1}
+	}
+	worker := NewCompactor(hub.Store, hub.Dsm, hub.Env.Logger)
+	var werr error
+	h.SymbolicLocks()
+	h.SymbolicTxns()
+	h.SymbolicSched(h.Param("preemptions", 2))
+	h.MarkGoroutines()
+	e1 := worker.CompactAsync("d", mkStrategy())
+	_ = worker.CompactAsync("other", mkStrategy()) // refused while the first one runs, or served
+	h.Go(func() { werr = ds.StoreEntities([]*server.Entity{vMk("ns0:e1", w)}) })
+	h.Assert(h.Wait(), "compactions and writer complete")
+	h.Assert(e1 == nil, "the first compaction request is accepted")
+	h.Assert(werr == nil, "the write succeeds while compaction runs")
+	after := vObserve(h, hub, nil)
+	h.Assert(after.list == want.list, "latest view is the one the write produces, compaction invisible :: got="+after.list+" want="+want.list)
+	h.Assert(after.lookup == want.lookup, "entity lookup as without compaction :: got="+after.lookup+" want="+want.lookup)
+	h.Assert(after.latestFeed == want.latestFeed, "latest-only feed as without compaction :: got="+after.latestFeed+" want="+want.latestFeed)
+	h.Assert(vDedupOf(want.feed, after.feed), "full feed = uncompacted feed minus only versions identical to their predecessor :: got="+server.VJoin(after.feed)+" uncompacted="+server.VJoin(want.feed))
+	h.Observe("feed", len(after.feed))
+}
